@@ -226,6 +226,7 @@ real_t stddev(const arr_cmplx& arr) {
 
 //-------------------------------------------------------------------------------------------------
 real_t median(const arr_real& arr) {
+    DSPLIB_ASSERT(arr.size() > 0, "median of an empty array");
     arr_real r(arr);
     std::sort(r.begin(), r.end());
     const int n = r.size();
